@@ -120,6 +120,16 @@ def build_forecast(world, conf, cats, path, ncat_given=True):
                 t += 1
                 data.append(world.event_tuple(e, t))
             carry = conf.get('carry')
+            if carry == 'region':
+                # the catalogs come with a region of their own (a wider lattice in another cell order, finer magnitude
+                # bins): the forecast's expected rates are on the forecast's region
+                import numpy
+                from csep.core import regions
+                wide = regions.create_space_magnitude_region(
+                    regions.CartesianGrid2D.from_origins(numpy.array([[float(i), 0.0] for i in (3, 2, 1, 0, -1)]), dh=1.0),
+                    numpy.array([3.0, 3.5, 4.0, 4.5, 5.0, 5.5]))
+                lst.append(CSEPCatalog(data=data, catalog_id=i, region=wide))
+                continue
             if carry == 'ctor' and 'filters' in kw:
                 # the catalog already names the statements in its `filters` attribute (set by the constructor: nothing was
                 # filtered yet)
@@ -324,7 +334,7 @@ def run(chk, replay=None):
         cats = [[dict(e, b=e['b']) for e in cat] for cat in case['cats']]
         conf['ncat_given'] = not (conf['src'] == 'list' and rng.random() < 0.25)
         conf['real'] = rng.choice(['stmt', 'mct', 'both'])
-        conf['carry'] = rng.choice([None, 'ctor', 'copy'])
+        conf['carry'] = rng.choice([None, 'ctor', 'copy', 'region'])
         tr = run_history(world, conf, cats, case['hist'], path, rec, seed=ci)
         chk.count()
         if 'aborted' in tr:
@@ -340,7 +350,7 @@ def run(chk, replay=None):
         conf, cats = random_world_forecast(rng)
         conf['ncat_given'] = not (conf['src'] == 'list' and rng.random() < 0.25)
         conf['real'] = ['stmt', 'mct', 'both'][t % 3]
-        conf['carry'] = [None, 'ctor', 'copy', 'ctor'][t % 4]
+        conf['carry'] = [None, 'ctor', 'copy', 'region'][t % 4]
         hist = [rng.choice(['iter', 'counts', 'ncat', 'rates', 'scounts', 'mcounts', 'eval']) for _ in range(rng.randint(5, 12))]
         tr = run_history(world, conf, cats, hist, path, rec, seed=t)
         chk.count()
